@@ -304,6 +304,13 @@ func runHarness(l *Loaded, spec HarnessSpec, tier string, known map[string]Known
 	return res, nil
 }
 
+func maxW(w uint8) uint8 {
+	if w == 0 {
+		return 64
+	}
+	return w
+}
+
 func seedValue() int {
 	n, _ := strconv.Atoi(os.Getenv("VERIF_SEED"))
 	return n
@@ -324,6 +331,8 @@ func renderSample(e *Engine, ps pathSample) map[string]interface{} {
 				b[i] = byte(e.ctx.Eval(t, m, memo))
 			}
 			out[in.Name] = fmt.Sprintf("%q", string(b))
+		case "havoc":
+			out[in.Name] = fmt.Sprintf("%d havoc'ed leaves", len(in.Terms))
 		default:
 			out[in.Name] = int64(e.ctx.Eval(in.Terms[0], m, memo))
 		}
@@ -355,6 +364,10 @@ func inputsFromModel(ins []inputRec, model map[string]uint64, ctx *Ctx) []Replay
 			ri.Bytes = make([]int, len(in.Terms))
 			for i, t := range in.Terms {
 				ri.Bytes[i] = int(ctx.Eval(t, model, memo) & 0xff)
+			}
+		case "havoc":
+			for _, t := range in.Terms {
+				ri.Ints = append(ri.Ints, sext(ctx.Eval(t, model, memo)&maskB(t.w), maxW(t.w)))
 			}
 		default:
 			val := ctx.Eval(in.Terms[0], model, memo)
@@ -464,6 +477,7 @@ type ReplayInput struct {
 	Kind  string  `json:"kind"`
 	Bytes []int   `json:"bytes,omitempty"`
 	Int   int64   `json:"int"`
+	Ints  []int64 `json:"ints,omitempty"`
 }
 
 type ReplayFile struct {
@@ -489,6 +503,10 @@ func buildReplay(prop string, spec HarnessSpec, params map[string]int, v *Violat
 			ri.Bytes = make([]int, len(in.Terms))
 			for i, t := range in.Terms {
 				ri.Bytes[i] = int(v.Model[t.name] & 0xff)
+			}
+		case "havoc":
+			for _, t := range in.Terms {
+				ri.Ints = append(ri.Ints, sext(v.Model[t.name]&maskB(t.w), maxW(t.w)))
 			}
 		default:
 			val := v.Model[in.Terms[0].name]
